@@ -56,6 +56,8 @@ pub struct PoolProg {
     default_ok: bool,
     /// offsets the program was written for (fixed VM probe programs)
     pub probe: Option<(usize, usize)>,
+    /// this program is the first `len` bytes of pool program #i's buffer (same start address)
+    pub prefix_of: Option<(usize, usize)>,
 }
 
 const HELPER_ID: u32 = 7;
@@ -112,7 +114,17 @@ pub fn mk_pool(rng: &mut Rng, pkt_addr: u64) -> Vec<PoolProg> {
             }
         }
         v.push(Insn::new(EXIT, 0, 0, 0, 0));
-        pool.push(PoolProg { bytes: encode_prog(&v), id, needs_helper, frame_probe, default_ok, probe });
+        pool.push(PoolProg { bytes: encode_prog(&v), id, needs_helper, frame_probe, default_ok, probe, prefix_of: None });
+    }
+    // a pair of valid programs that share their start address: #12 = lddw; exit; exit and #13 = its
+    // first three slots (a different program as far as loading and compiling are concerned)
+    {
+        let id = next_id(rng, 0);
+        let v = vec![Insn::new(LDDW, 0, 0, 0, id as u32 as i32), Insn::new(0, 0, 0, 0, (id >> 32) as u32 as i32), Insn::new(EXIT, 0, 0, 0, 0), Insn::new(EXIT, 0, 0, 0, 0)];
+        let bytes = encode_prog(&v);
+        let long_idx = pool.len();
+        pool.push(PoolProg { bytes: bytes.clone(), id, needs_helper: false, frame_probe: false, default_ok: true, probe: None, prefix_of: None });
+        pool.push(PoolProg { bytes: bytes[..24].to_vec(), id, needs_helper: false, frame_probe: false, default_ok: true, probe: None, prefix_of: Some((long_idx, 24)) });
     }
     // one byte string no verifier-independent reading can run: truncated (7 bytes) - only loadable
     // under accept-all; never executed by the generator after such a load
@@ -187,6 +199,14 @@ fn value_of(p: &PoolProg, helper: Option<usize>, offs: (usize, usize), kind: Kin
     Some(vec![p.id])
 }
 
+/// the bytes to load for pool program #i (a prefix program is a slice of ANOTHER entry's buffer)
+pub fn prog_slice(pool: &[PoolProg], i: usize) -> &[u8] {
+    match pool[i].prefix_of {
+        Some((j, len)) => &pool[j].bytes[..len],
+        None => &pool[i].bytes[..],
+    }
+}
+
 /// Execute one API history against the real API (in the current process: callers wrap it in a
 /// forked child) and append one observation per call to `out`.
 pub fn exec_history(kind: &Kind, ops: &[Op], pool: &[PoolProg], pk: (*mut u8, usize), mb: (*mut u8, usize), out: &mut Vec<u8>) {
@@ -197,7 +217,7 @@ pub fn exec_history(kind: &Kind, ops: &[Op], pool: &[PoolProg], pk: (*mut u8, us
                 match op {
                     Op::New(p) => {
                         let offs = p.map(offs_of).unwrap_or((0, 8));
-                        match Vm::new(*kind, p.map(|i| &pool[i].bytes[..]), offs) {
+                        match Vm::new(*kind, p.map(|i| prog_slice(pool, i)), offs) {
                             Ok(v) => {
                                 vm = Some(v);
                                 Obs::Ok
@@ -206,7 +226,7 @@ pub fn exec_history(kind: &Kind, ops: &[Op], pool: &[PoolProg], pk: (*mut u8, us
                         }
                     }
                     _ if vm.is_none() => Obs::Skipped,
-                    Op::SetProgram(p) => match vm.as_mut().unwrap().set_program(&pool[*p].bytes, offs_of(*p)) {
+                    Op::SetProgram(p) => match vm.as_mut().unwrap().set_program(prog_slice(pool, *p), offs_of(*p)) {
                         Ok(()) => Obs::Ok,
                         Err(_) => Obs::Err,
                     },
@@ -521,6 +541,12 @@ pub fn run(a: &Args, rep: &mut Report) {
                             }
                             match &obs {
                                 Obs::Err if stale => {}
+                                // code compiled before the last successful load belongs to another
+                                // program: the newly loaded one was never compiled => error required
+                                Obs::Val(v) if stale => {
+                                    fail(rep, "compiled-code-of-previous-load-ran", format!("a program was loaded after the last compilation, yet executing compiled code returned {v:#x} instead of the 'not compiled' error"));
+                                    stop = true;
+                                }
                                 Obs::Val(v) if ok_vals.contains(v) => {}
                                 Obs::Val(v) => {
                                     let whose = pool.iter().position(|p| p.id == *v || (p.needs_helper && (0..8).any(|j| p.id ^ hlp::value(j, HARGS) == *v)));
